@@ -654,7 +654,7 @@ func (cx *c23Ctx) watchdog(done chan struct{}, busy []atomic.Int64) {
 }
 
 func checkC23(r *fw.Run) {
-	r.SetRule("inputs = (a) every .go file under GOROOT/src and /repo (quick: fixed core + seeded sample of ~1000), (b) seeded byte-level and token-level mutations (1..3 edits; quick 100000, thorough 1000000) of 200..3000-byte line-aligned windows of those files, (c) every ordered pair of a 392-piece literal-heavy alphabet (number literal edge cases 0b/0o/0x/_ separators/hex floats/imaginary, strings, runes, escapes, comments incl. line directives, BOM, CR, NUL, invalid UTF-8, unterminated literals, keywords, operators) joined by '', ' ' or newline, (d) seeded token soups of 1..14 such pieces (quick 100000, thorough 1000000); inputs that use ~, # or the word macro outside strings/comments (standard scanner's judgement) are dropped. A distinct non-trivial case = distinct in-scope input bytes with >= 2 tokens before EOF. Oracle per input and per mode (comments skipped / ScanComments): fork reports >=1 error iff go/scanner does; if go/scanner reports none: identical (position, token, literal) sequences, identical line tables and Position() of every token; only an automatically inserted semicolon in front of a same-line comment may sit at the comment instead of the newline/EOF (allowed silently when the comment ends the input, known finding otherwise)")
+	r.SetRule("inputs = (a) every .go file under GOROOT/src and /repo (quick: fixed core + seeded sample of ~1000), (b) seeded byte-level and token-level mutations (1..3 edits; quick 100000, thorough 1000000) of 200..3000-byte line-aligned windows of those files, (c) every ordered pair of a 392-piece literal-heavy alphabet (number literal edge cases 0b/0o/0x/_ separators/hex floats/imaginary, strings, runes, escapes, comments incl. line directives, BOM, CR, NUL, invalid UTF-8, unterminated literals, keywords, operators) joined by '', ' ' or newline, (d) seeded token soups of 1..14 such pieces (quick 100000, thorough 1000000), (e) the files of (a) and the pairs of (c) once more with etoken.GENERICS = GENERICS_V2_CTI, the mode the gomacro command runs in (no additional keyword is allowed in that mode); inputs that use ~, # or the word macro outside strings/comments (standard scanner's judgement) are dropped. A distinct non-trivial case = distinct in-scope input bytes with >= 2 tokens before EOF. Oracle per input and per mode (comments skipped / ScanComments): fork reports >=1 error iff go/scanner does; if go/scanner reports none: identical (position, token, literal) sequences, identical line tables and Position() of every token; only an automatically inserted semicolon in front of a same-line comment may sit at the comment instead of the newline/EOF (allowed silently when the comment ends the input, known finding otherwise)")
 	r.Assume("go/scanner of the toolchain that builds the harness (Go 1.23) is the reference; token kinds are compared by value (etoken.Token is an alias of token.Token)")
 	r.Assume("when the standard scanner reports an error only the existence of an error on the fork side is demanded (tokens, messages and error counts are recorded, not asserted)")
 	r.Assume("the fork scanner is initialised as the fork parser does: etoken.FileSet.AddFile + Scanner.Init with macro character '~'")
@@ -672,6 +672,9 @@ func checkC23(r *fw.Run) {
 		}
 		fmt.Printf("replay %s %s: %d bytes: %q\n", rep.Kind, rep.Origin, len(src), fw.Clip(string(src), 400))
 		a := newC23Acc()
+		if strings.HasSuffix(rep.Kind, "-cti") {
+			etoken.GENERICS = etoken.GENERICS_V2_CTI
+		}
 		cx.c23Check(rep.Kind, rep.Origin, src, a, true)
 		cx.flush(a)
 		r.SetMinDistinct(0)
@@ -746,6 +749,28 @@ func checkC23(r *fw.Run) {
 		src := c23Soup(rnd, alpha)
 		cx.c23Check("soup", fmt.Sprintf("#%d", i), src, a, false)
 	})
+
+	// ---- (e) the command's generics mode: files and alphabet pairs again with etoken.GENERICS = V2_CTI ---
+	// (GENERICS is process-global: switched here, between the parallel phases only)
+	savedGenerics := etoken.GENERICS
+	etoken.GENERICS = etoken.GENERICS_V2_CTI
+	cx.c23RunCases(len(use), func(w, i int, a *c23Acc) {
+		src, err := os.ReadFile(use[i])
+		if err != nil {
+			return
+		}
+		a.counts["cti_mode_inputs"]++
+		cx.c23Check("file-cti", use[i], src, a, false)
+	})
+	cx.c23RunCases(np, func(w, i int, a *c23Acc) {
+		s := i % len(seps)
+		y := (i / len(seps)) % len(alpha)
+		x := i / len(seps) / len(alpha)
+		src := []byte(alpha[x] + seps[s] + alpha[y])
+		a.counts["cti_mode_inputs"]++
+		cx.c23Check("pair-cti", fmt.Sprintf("%q %q %q", alpha[x], seps[s], alpha[y]), src, a, false)
+	})
+	etoken.GENERICS = savedGenerics
 
 	r.Extra("tables", cx.merged.cover)
 	keys := make([]string, 0, len(cx.merged.counts))
